@@ -42,6 +42,10 @@ func VerifC02_H1seq(v *VerifV) {
 	N := v.Param("N")
 	K := v.Param("K")
 	NB := v.Param("NB") // number of block ids incl. nil
+	verifSameHash = v.Param("SAMEHASH") == 1
+	if verifSameHash {
+		v.Cover("same-hash-other-parts")
+	}
 	vals, p, total := verifMkVals(v, N)
 	const H, R = 5, 2
 	T := kproto.PrecommitType
